@@ -110,6 +110,12 @@ def bases():
         [comp('P', 0, 'gen', toks('-i', R(0)), [ref(None, 'data/in.txt')]),
          comp('C', 1, 'ls', toks('-l', R(0)), [ref('P', None)])],
         'C', files={'data/in.txt': 'hello'}, outputs={'P': {'out.txt': 'produced'}})
+    # the same reference mentioned several times in the command line (three times a produced file, twice a data file)
+    out['mentions'] = _world(
+        [comp('P', 0, 'gen', toks('-i', R(0)), [ref(None, 'data/in.txt')]),
+         comp('C', 1, 'cmp', toks('-a', R(0), '-b', R(1), R(0), '--again', R(1), 'lit', R(0)),
+              [ref('P', 'out.txt'), ref(None, 'data/aux.txt')])],
+        'C', files={'data/in.txt': 'hello', 'data/aux.txt': 'aux'}, outputs={'P': {'out.txt': 'produced'}})
     # a chain of working directories: P -> Q (directory of P) -> C (directory of Q)
     out['dirchain'] = _world(
         [comp('P', 0, 'gen', toks('-i', R(0)), [ref(None, 'data/in.txt')]),
@@ -441,6 +447,10 @@ def variations(base_name, w0):
     for lbl, mt in (('mtime=2001', 1000000000), ('mtime=2033', 2000000000)):
         w = new(); w['inst']['mtime'] = mt
         yield 'time', 'time:%s' % lbl, w
+    # modification times that do not follow the names / indices of the files (touched, restored, copied without times)
+    for order in ('oldest-name-newest', 'newest-name-newest', 'rotated'):
+        w = new(); w['inst']['mtime_order'] = order
+        yield 'time', 'time:mtimes-%s' % order, w
     # things next to the component
     w = new(); w['comps'].append(comp('Other', 0, 'sleep', ['1'], []))
     yield 'neighbours', 'unrelated-component', w
@@ -731,6 +741,20 @@ def realise(world, root):
                         os.utime(os.path.join(dp, f), (inst['mtime'], inst['mtime']), follow_symlinks=False)
                     except (OSError, NotImplementedError):
                         pass
+    if inst.get('mtime_order'):
+        import re as _re
+        nat = lambda p: [int(t) if t.isdigit() else t for t in _re.split(r'(\d+)', p)]
+        paths = []
+        for dp, dn, fn in os.walk(idir.location):
+            paths.extend(os.path.join(dp, f) for f in fn)
+        paths.sort(key=nat)          # natural order: streams/9.stdout before streams/10.stdout
+        n = len(paths)
+        for i, pth in enumerate(paths):
+            rank = {'oldest-name-newest': n - i, 'newest-name-newest': i, 'rotated': (i + n // 2 + 1) % n}[inst['mtime_order']]
+            try:
+                os.utime(pth, (1500000000 + 3600 * rank, 1500000000 + 3600 * rank), follow_symlinks=False)
+            except (OSError, NotImplementedError):
+                pass
     if inst.get('reload'):
         loc = idir.location
         if inst['reload'] == 'moved':
